@@ -36,3 +36,6 @@ inline void reset_case_globals() {
     vrt::ledger().reset();
 }
 inline int popcount64(uint64_t x) { return __builtin_popcountll(x); }
+// Half of the cases construct the wrapper under test from an rvalue payload (forwarding constructors must not use a forwarded
+// argument twice), the other half from a plain value.
+inline bool ctor_from_rvalue(const vh::Case& c) { unsigned h = 0; for (auto& f : c.fibers) for (auto& o : f) h = h * 31 + (unsigned)o.code + (unsigned)o.a; return (h & 1) != 0; }
